@@ -273,6 +273,33 @@ func (g *QGen) selector(depth int) Sel {
 
 func (g *QGen) path(depth int, anchor string) []Sel {
 	sels := []Sel{{Kind: anchor}}
+	if depth == 0 && g.r.Chance(10) {
+		// several incoming containers, then a script or filter segment whose value differs per container
+		g.Stats["path.fanout-segment"]++
+		switch g.r.Intn(3) {
+		case 0:
+			sels = append(sels, Sel{Kind: "wild", Quote: byte(g.r.Intn(2))})
+		case 1:
+			sels = append(sels, Sel{Kind: "descent"}, Sel{Kind: "wild", Quote: byte(g.r.Intn(2))})
+		default:
+			sels = append(sels, g.selector(1))
+			if sels[len(sels)-1].Kind == "descent" {
+				sels = append(sels, Sel{Kind: "wild"})
+			}
+		}
+		if g.r.Chance(70) {
+			sels = append(sels, Sel{Kind: "script", Expr: g.scriptExpr(1)})
+		} else {
+			sels = append(sels, Sel{Kind: "filter", Expr: g.expr(1, true)})
+		}
+		if g.r.Chance(30) {
+			nx := g.selector(1)
+			if nx.Kind != "descent" {
+				sels = append(sels, nx)
+			}
+		}
+		return sels
+	}
 	n := g.r.Intn(4)
 	if depth == 0 {
 		n = 1 + g.r.Intn(4)
@@ -388,7 +415,15 @@ func (g *QGen) expr(depth int, boolish bool) *Expr {
 
 func (g *QGen) scriptExpr(depth int) *Expr {
 	r := g.r
-	switch r.Intn(5) {
+	switch r.Intn(7) {
+	case 5, 6:
+		// the key or index is read from the container itself: differs (and may be missing, null or a container)
+		// from one incoming container to the next
+		g.Stats["script.member"]++
+		if r.Chance(75) {
+			return &Expr{Kind: "path", Path: []Sel{{Kind: "current"}, g.nameSelExpr()}}
+		}
+		return &Expr{Kind: "path", Path: []Sel{{Kind: "current"}, {Kind: "index", Index: r.Intn(4) - 1}}}
 	case 0:
 		return &Expr{Kind: "num", Num: strconv.Itoa(r.Intn(7) - 3)}
 	case 1:
